@@ -6,6 +6,7 @@ CONSTANTS
   BinaryKinds = {"Add", "Subtract"}
   Levels = {"channel", "group", "root"}
   Shadow = {FALSE}
+  LongChains = {}
   GenPrint = FALSE
 INVARIANT Elementwise
 INVARIANT DTypeTotal
